@@ -526,7 +526,7 @@ func (c *c08) Run(ctx *RunCtx) *RunResult {
 	if abs := uint64(2500*(len(delivered)+16) + 100000); abs < budget {
 		budget = abs
 	}
-	simrt.Reset(1, nil, uint64(t.Draw(1<<16))+1)
+	simrt.Reset(1, soloPlan(t, treeSpawnsCached(c.env), 3000), uint64(t.Draw(1<<16))+1)
 	simrt.Solo()
 	simrt.SetHeapLimit(1 << 30)
 	rand.Seed(int64(t.Draw(1 << 16)))
